@@ -199,7 +199,12 @@ func collectRaces(a *Agg, wd string, shard int) {
 				a.Inconcl = append(a.Inconcl, "race report with no /repo frame (harness bug): "+tailStr(blk, 600))
 				continue
 			}
-			a.Violations = append(a.Violations, Violation{Sig: "race:" + sig, Detail: tailStr(blk, 3000),
+			full := "race:" + sig
+			if a.Spec != nil && a.Spec.RaceSig != nil {
+				full = a.Spec.RaceSig(sig)
+			}
+			a.Counters["race_pair|"+sig]++
+			a.Violations = append(a.Violations, Violation{Sig: full, Detail: "[" + sig + "] " + tailStr(blk, 3000),
 				Case: map[string]interface{}{"shard": shard}})
 		}
 	}
